@@ -32,8 +32,11 @@ func main() {
 	}
 	switch os.Args[1] {
 	case "debug":
-		if os.Args[2] == "pool" {
+		switch os.Args[2] {
+		case "pool":
 			props.DebugPool()
+		case "startup":
+			props.DebugStartup()
 		}
 	case "run":
 		if len(os.Args) < 4 {
